@@ -41,7 +41,7 @@ let bytes_of_hex (s : Stdlib.String.t) : z list =
 let err_name (e : err) : Stdlib.String.t = match e with
   | ValueErr -> "ValueError" | EOFErr -> "EOFError" | OverflowErr -> "OverflowError"
   | TypeErr -> "TypeError" | AssertErr -> "AssertionError" | KeyErr -> "KeyError"
-  | IndexErr -> "IndexError" | CFIStateErr -> "CFIStateError" | NotImplementedErr -> "NotImplementedError" | UsesRemainErr -> "SymbolUsesRemainingError" | AmbiguousErr -> "AmbiguousIRError" | OutOfFuel -> "OutOfFuel"
+  | IndexErr -> "IndexError" | CFIStateErr -> "CFIStateError" | NotImplementedErr -> "NotImplementedError" | UsesRemainErr -> "SymbolUsesRemainingError" | AmbiguousErr -> "AmbiguousIRError" | MultiDefErr -> "MultipleDefinitionsError" | UndefErr -> "UndefSymbolError" | UnsupportedErr -> "UnsupportedAssemblyError" | OutOfFuel -> "OutOfFuel"
 (* token stream over one input line *)
 let toks : Stdlib.String.t list ref = ref []
 let set_line (l : Stdlib.String.t) = toks := List.filter (fun s -> s <> "") (Stdlib.String.split_on_char ' ' l)
